@@ -131,6 +131,7 @@ class SymEx:
         self.symbolic_asserts = set()   # ... whose condition stayed symbolic on some path
         self.failed_asserts = set()     # ... whose constant condition was the failing one on some path
         self._loopfree = {}
+        self.aliases = {}               # repr(value of an uninterpreted call) -> the value it is known to be (a named sequence)
         self.aborted = []
 
     # ---------------------------------------------------------------- public
@@ -350,7 +351,15 @@ class SymEx:
                     return None
                 outs = self.run(pb, [], st=st)
                 if len(outs) == 1:
-                    return outs[0].ret
+                    r = outs[0].ret
+                    if isinstance(r, tuple) and r[0] == 'ref':
+                        # `&CONST`: the reference points into the initialiser's own frame; hand out the value it refers to
+                        # (reads through a non-reference value are reads of the value)
+                        try:
+                            r = self.deep(outs[0].st, r)
+                        except Exception:      # noqa: BLE001
+                            pass
+                    return r
         return None
 
     def constant(self, c):
@@ -404,6 +413,13 @@ class SymEx:
             loc = self.locate(st, fid, rv['place'])
             if loc[0] == 'loc':
                 return ('ref', loc[1], loc[2], loc[3])
+            has_idx = any(isinstance(e, dict) and ('idx' in e or 'cidx' in e) and 'f' not in e for e in rv['place']['p'])
+            if has_idx and not rv.get('mut') and r == 'ref':
+                # a shared reference to an element selected by a known index (`&TABLE[i]`): the element's value (reads through a
+                # non-reference value are reads of the value)
+                v = self.read_place(st, fid, rv['place'])
+                if not (isinstance(v, tuple) and v[0] == 'unk'):
+                    return v
             if loc[0] == 'symbase':
                 v = loc[1]
                 for e in loc[2]:
@@ -651,6 +667,19 @@ class SymEx:
             # afterwards are not known (analyses that need exhaustiveness check this flag)
             self.opaque_mut_calls.add(name)
         app = APP(short_name(name), *[self.deep(st, a) for a in args])
+        if app[1] in ('tuple::eq', 'tuple::ne') and len(app[2]) == 2:
+            # (a, b) == (c, d)  is  a == c & b == d  (derived structural equality of tuples)
+            ta, tb = app[2]
+            if ta[0] == 'struct' and tb[0] == 'struct' and ta[1] == tb[1] == '(tuple)' and len(ta[3]) == len(tb[3]) and ta[3]:
+                op, join = ('Eq', 'BitAnd') if app[1] == 'tuple::eq' else ('Ne', 'BitOr')
+                parts = [('cmp', op, x[1], y[1]) for x, y in zip(ta[3], tb[3])]
+                v = parts[0]
+                for q in parts[1:]:
+                    v = ('bin', join, v, q)
+                return [(st, v)]
+        if self.aliases and repr(app) in self.aliases:
+            app = self.aliases[repr(app)]
+            name = app[1]
         if self.seq_sources and any(name.endswith(x) for x in self.seq_sources):
             # a sequence of unknown length: {elem($x) | $x in base, position $i >= start}
             return [(st, ('sseq', app, SYM('$x'), NUM(0)))]
